@@ -33,11 +33,11 @@ Print Assumptions C17_restart_counter.
 Theorem C17_stop_restart_exact : forall c0 T W, 1 <= W -> c0 <= T ->
   forall n W2 sched1 sched2, n <= T - c0 -> 1 <= W2 ->
   exists s0 s', init_phase (W + 2) (start c0 T W) = Some s0 /\
-    let sk := main_prefix n s0 sched1 in
-    restart_cstep sk = c0 + n /\ cstep sk = c0 + n /\ length (completed sk) = n /\
-    NoDup (completed sk ++ pending sk) /\
-    scheduler (restart_cstep sk) T W2 sched2 = Some s' /\
-    length (completed sk) + length (completed s') = T - c0 /\
+    restart_cstep (main_prefix n s0 sched1) = c0 + n /\ cstep (main_prefix n s0 sched1) = c0 + n /\
+    length (completed (main_prefix n s0 sched1)) = n /\
+    NoDup (completed (main_prefix n s0 sched1) ++ pending (main_prefix n s0 sched1)) /\
+    scheduler (restart_cstep (main_prefix n s0 sched1)) T W2 sched2 = Some s' /\
+    length (completed (main_prefix n s0 sched1)) + length (completed s') = T - c0 /\
     cstep s' = T /\ pending s' = [] /\ restart_cstep s' = T /\ restart_locked s' = [].
 Proof. exact crash_restart_total. Qed.
 Print Assumptions C17_stop_restart_exact.
@@ -93,9 +93,10 @@ Example C17_example_runner :
             /\ delivered r = [(0, Res 1); (1, Exc 7); (2, Res 3)] /\ quiescent r = true.
 Proof. eexists. vm_compute. repeat split. Qed.
 
+Definition C17_ex_sk (s0 : sch) : sch := main_prefix 2 s0 [2; 0].
 Example C17_example_stop_restart :
   exists s0, init_phase (3 + 2) (start 0 6 3) = Some s0 /\
-    let sk := main_prefix 2 s0 [2; 0] in
-    completed sk = [2; 0] /\ pending sk = [1; 3; 4] /\ restart_cstep sk = 2 /\ restart_locked sk = [1; 3] /\
-    exists s', scheduler (restart_cstep sk) 6 2 [1; 0; 0; 0] = Some s' /\ length (completed s') = 4.
+    completed (C17_ex_sk s0) = [2; 0] /\ pending (C17_ex_sk s0) = [1; 3; 4] /\ restart_cstep (C17_ex_sk s0) = 2 /\
+    restart_locked (C17_ex_sk s0) = [1; 3] /\
+    exists s', scheduler (restart_cstep (C17_ex_sk s0)) 6 2 [1; 0; 0; 0] = Some s' /\ length (completed s') = 4.
 Proof. eexists. split; [vm_compute; reflexivity|]. vm_compute. repeat split. eexists. split; reflexivity. Qed.
